@@ -9,45 +9,45 @@ Lemma gmacro_mono q g k i : g_macro g = true -> g_macro (gpush q g k i) = true.
 Proof. cbn [gpush g_macro]. intros ->. reflexivity. Qed.
 
 (* ------------------------------------------------------------------ guarded exactness (any quirk vector) *)
-Theorem unwrap_guarded q c file : file_guard LUnwrap q file = true ->
-  unwrap_report q c file = spec_unwrap_report c file.
+Theorem unwrap_guarded q ls c file : file_guard LUnwrap q file = true ->
+  unwrap_report q ls c file = spec_unwrap_report ls c file.
 Proof.
   intros G. unfold unwrap_report, spec_unwrap_report.
-  apply (walk_file_sim (push_m q) (emit_unwrap q (c_unwrap c)) spec_push (spec_unwrap (c_unwrap c))
+  apply (walk_file_sim (push_m q) (emit_unwrap q ls (c_unwrap c)) spec_push (spec_unwrap ls (c_unwrap c))
                        (gpush q) (gok LUnwrap q) (R q) g_macro) with (g := g0).
-  - intros g c1 c2 k cs HR Hk. exact (emit_unwrap_eq q g _ c1 c2 k cs HR Hk).
+  - intros g c1 c2 k cs HR Hk. exact (emit_unwrap_eq q g ls _ c1 c2 k cs HR Hk).
   - intros g c1 c2 k cs i rest HR Hk. exact (push_R LUnwrap q g c1 c2 k cs i rest HR Hk).
-  - intros g c2 k cs M Hk. exact (spec_unwrap_silent q g _ c2 k cs M Hk).
+  - intros g c2 k cs M Hk. exact (spec_unwrap_silent q g ls _ c2 k cs M Hk).
   - intros g k i. apply gmacro_mono.
   - apply R_init.
   - exact G.
 Qed.
 
-Theorem clone_guarded q c file :
+Theorem clone_guarded q ls c file :
   q_clone_first_pattern q = false \/ clone_switches_on (c_clone c) = true ->
   file_guard LClone q file = true ->
-  clone_report q c file = spec_clone_report c file.
+  clone_report q ls c file = spec_clone_report ls c file.
 Proof.
   intros HQ G. unfold clone_report, spec_clone_report.
-  apply (walk_file_sim (push_m q) (emit_clone q (c_clone c)) spec_push (spec_clone (c_clone c))
+  apply (walk_file_sim (push_m q) (emit_clone q ls (c_clone c)) spec_push (spec_clone ls (c_clone c))
                        (gpush q) (gok LClone q) (R q) g_macro) with (g := g0).
-  - intros g c1 c2 k cs HR Hk. exact (emit_clone_eq q g _ c1 c2 k cs HQ HR Hk).
+  - intros g c1 c2 k cs HR Hk. exact (emit_clone_eq q g ls _ c1 c2 k cs HQ HR Hk).
   - intros g c1 c2 k cs i rest HR Hk. exact (push_R LClone q g c1 c2 k cs i rest HR Hk).
-  - intros g c2 k cs M Hk. exact (spec_clone_silent q g _ c2 k cs M Hk).
+  - intros g c2 k cs M Hk. exact (spec_clone_silent q g ls _ c2 k cs M Hk).
   - intros g k i. apply gmacro_mono.
   - apply R_init.
   - exact G.
 Qed.
 
-Theorem blocking_guarded q c file : file_guard LBlocking q file = true ->
-  blocking_report q c file = spec_blocking_report c file.
+Theorem blocking_guarded q ls c file : file_guard LBlocking q file = true ->
+  blocking_report q ls c file = spec_blocking_report ls c file.
 Proof.
   intros G. unfold blocking_report, spec_blocking_report.
-  apply (walk_file_sim (push_m q) (emit_blocking q (c_blocking c)) spec_push (spec_blocking (c_blocking c))
+  apply (walk_file_sim (push_m q) (emit_blocking q ls (c_blocking c)) spec_push (spec_blocking ls (c_blocking c))
                        (gpush q) (gok LBlocking q) (R q) g_macro) with (g := g0).
-  - intros g c1 c2 k cs HR Hk. exact (emit_blocking_eq q g _ c1 c2 k cs HR Hk).
+  - intros g c1 c2 k cs HR Hk. exact (emit_blocking_eq q g ls _ c1 c2 k cs HR Hk).
   - intros g c1 c2 k cs i rest HR Hk. exact (push_R LBlocking q g c1 c2 k cs i rest HR Hk).
-  - intros g c2 k cs M Hk. exact (spec_blocking_silent q g _ c2 k cs M Hk).
+  - intros g c2 k cs M Hk. exact (spec_blocking_silent q g ls _ c2 k cs M Hk).
   - intros g k i. apply gmacro_mono.
   - apply R_init.
   - exact G.
@@ -82,7 +82,7 @@ Qed.
 Lemma gok_attrs q pre :
   q_test_attr_substring q = false -> q_cfg_test_literal q = false ->
   Bool.eqb (sib_walk (run_types q test_attr_run_types) test_attr_sibling_type
-                     (attr_hit test_attr_needle attr_is_test_fn (q_test_attr_substring q)) (rev pre)) (fn_is_test pre) = true /\
+                     (attr_hit test_attr_needle attr_marks_test_fn (q_test_attr_substring q)) (rev pre)) (fn_is_test pre) = true /\
   Bool.eqb (sib_walk (run_types q cfg_attr_run_types) cfg_attr_sibling_type
                      (attr_hit cfg_attr_needle attr_is_cfg_test (q_cfg_test_literal q)) (rev pre)) (mod_is_test pre) = true.
 Proof.
@@ -103,14 +103,15 @@ Definition linter_flags_off (w : linter) (q : rquirks) : Prop :=
   match w with
   | LUnwrap => q_chain_start_line q = false
   | LClone => q_chain_start_line q = false /\ q_for_header_in_loop q = false
-  | LBlocking => q_net_bare_type q = false
+  | LBlocking => q_net_bare_type q = false /\ q_wrapper_method_form q = false /\ q_blocking_msg_line q = false
   end.
 
 Lemma guard_void w q : context_flags_off q -> linter_flags_off w q ->
-  forall n g, g_macro g = false -> (w = LClone -> g_forhdr g = false) -> rguard w q g n = true.
+  forall n g, g_macro g = false -> (w = LClone -> g_forhdr g = false) -> (w = LBlocking -> g_mwrap g = false) ->
+  rguard w q g n = true.
 Proof.
   intros (HM & HS & HC) HW.
-  induction n as [k cs IH] using node_ind'. intros g GM GF.
+  induction n as [k cs IH] using node_ind'. intros g GM GF GW.
   unfold rguard. rewrite guard_eq. apply andb_true_iff. split.
   - unfold gok. rewrite GM. cbn [negb orb andb].
     destruct (gok_attrs q (match k with KFn pre _ _ | KMod pre => pre | _ => [] end) HS HC) as [A1 A2].
@@ -119,46 +120,104 @@ Proof.
       * now rewrite HW.
       * destruct HW as [HW1 HW2]. rewrite HW1, (GF eq_refl). reflexivity.
       * reflexivity.
-    + destruct w; try reflexivity. cbn [linter_flags_off] in HW. rewrite (classes_documented q HW). apply ostr_eqb_refl.
+    + destruct w; try reflexivity. cbn [linter_flags_off] in HW. destruct HW as (HW1 & HW2 & HW3).
+      rewrite (classes_documented q HW1), (GW eq_refl), HW3. cbn [negb orb andb]. rewrite !andb_true_r. apply ostr_eqb_refl.
   - assert (GM' : forall i, g_macro (gpush q g k i) = false).
     { intros i. cbn [gpush g_macro]. now rewrite GM, HM. }
     assert (GF' : forall i, w = LClone -> g_forhdr (gpush q g k i) = false).
     { intros i E. cbn [gpush g_forhdr]. rewrite (GF E). subst w. destruct HW as [_ HW2]. now rewrite HW2. }
+    assert (GW' : forall i, w = LBlocking -> g_mwrap (gpush q g k i) = false).
+    { intros i E. cbn [gpush g_mwrap]. rewrite (GW E). subst w. destruct HW as (_ & HW2 & _). now rewrite HW2. }
     generalize 0 as i. induction IH as [|x xs Hx _ IHxs]; intros i; [reflexivity|].
     cbn [guard_kids]. apply andb_true_iff. split.
-    + exact (Hx (gpush q g k i) (GM' i) (GF' i)).
+    + exact (Hx (gpush q g k i) (GM' i) (GF' i) (GW' i)).
     + exact (IHxs (S i)).
 Qed.
 
 Lemma file_guard_void w q file : context_flags_off q -> linter_flags_off w q -> file_guard w q file = true.
 Proof.
   intros HC HW. unfold file_guard. apply forallb_forall. intros n _.
-  apply (guard_void w q HC HW n g0); [reflexivity|intros _; reflexivity].
+  apply (guard_void w q HC HW n g0); [reflexivity|intros _; reflexivity|intros _; reflexivity].
 Qed.
 
 (* ------------------------------------------------------------------ main theorems *)
-Theorem unwrap_exact q c file : context_flags_off q -> q_chain_start_line q = false ->
-  unwrap_report q c file = spec_unwrap_report c file.
+Theorem unwrap_exact q ls c file : context_flags_off q -> q_chain_start_line q = false ->
+  unwrap_report q ls c file = spec_unwrap_report ls c file.
 Proof. intros HC HL. apply unwrap_guarded. exact (file_guard_void LUnwrap q file HC HL). Qed.
 
-Theorem clone_exact q c file : context_flags_off q -> q_chain_start_line q = false ->
+Theorem clone_exact q ls c file : context_flags_off q -> q_chain_start_line q = false ->
   q_for_header_in_loop q = false -> q_clone_first_pattern q = false ->
-  clone_report q c file = spec_clone_report c file.
+  clone_report q ls c file = spec_clone_report ls c file.
 Proof.
   intros HC HL HF HP. apply clone_guarded; [left; exact HP|].
   exact (file_guard_void LClone q file HC (conj HL HF)).
 Qed.
 
-Theorem blocking_exact q c file : context_flags_off q -> q_net_bare_type q = false ->
-  blocking_report q c file = spec_blocking_report c file.
-Proof. intros HC HN. apply blocking_guarded. exact (file_guard_void LBlocking q file HC HN). Qed.
+Theorem blocking_exact q ls c file : context_flags_off q -> q_net_bare_type q = false -> q_wrapper_method_form q = false ->
+  q_blocking_msg_line q = false ->
+  blocking_report q ls c file = spec_blocking_report ls c file.
+Proof. intros HC HN HWr HM. apply blocking_guarded. exact (file_guard_void LBlocking q file HC (conj HN (conj HWr HM))). Qed.
 
-Theorem report_exact q c file : context_flags_off q -> q_chain_start_line q = false ->
+Theorem report_exact q ls c file : context_flags_off q -> q_chain_start_line q = false ->
   q_for_header_in_loop q = false -> q_clone_first_pattern q = false -> q_net_bare_type q = false ->
-  report q c file = spec_report c file.
+  q_wrapper_method_form q = false -> q_blocking_msg_line q = false ->
+  report q ls c file = spec_report ls c file.
 Proof.
-  intros HC HL HF HP HN. unfold report, spec_report.
-  now rewrite (unwrap_exact q c file HC HL), (clone_exact q c file HC HL HF HP), (blocking_exact q c file HC HN).
+  intros HC HL HF HP HN HWr HM. unfold report, spec_report.
+  now rewrite (unwrap_exact q ls c file HC HL), (clone_exact q ls c file HC HL HF HP), (blocking_exact q ls c file HC HN HWr HM).
+Qed.
+
+(* ------------------------------------------------------------------ the message quirk touches messages only *)
+Section WalkExt.
+  Context {C : Type}.
+  Lemma walk_ext (p1 p2 : C -> kind -> nat -> list node -> option C) (e1 e2 : C -> kind -> list node -> list rep) :
+    (forall c k i rest, p1 c k i rest = p2 c k i rest) -> (forall c k cs, e1 c k cs = e2 c k cs) ->
+    forall n c, walk p1 e1 c n = walk p2 e2 c n.
+  Proof.
+    intros HP HE. induction n as [k cs IH] using node_ind'. intros c. rewrite !walk_eq, HE. f_equal.
+    generalize 0 as i. induction IH as [|x xs Hx _ IHxs]; intros i; [reflexivity|].
+    cbn [walk_kids]. fold (walk_kids p1 e1 c k). fold (walk_kids p2 e2 c k).
+    rewrite IHxs, HP. f_equal. destruct (p2 c k i xs); [apply Hx|reflexivity].
+  Qed.
+  Lemma walk_map_ext {B} (f : rep -> B) (p1 p2 : C -> kind -> nat -> list node -> option C) (e1 e2 : C -> kind -> list node -> list rep) :
+    (forall c k i rest, p1 c k i rest = p2 c k i rest) -> (forall c k cs, map f (e1 c k cs) = map f (e2 c k cs)) ->
+    forall n c, map f (walk p1 e1 c n) = map f (walk p2 e2 c n).
+  Proof.
+    intros HP HE. induction n as [k cs IH] using node_ind'. intros c. rewrite !walk_eq, !map_app, HE. f_equal.
+    generalize 0 as i. induction IH as [|x xs Hx _ IHxs]; intros i; [reflexivity|].
+    cbn [walk_kids]. fold (walk_kids p1 e1 c k). fold (walk_kids p2 e2 c k).
+    rewrite !map_app, IHxs, HP. f_equal. destruct (p2 c k i xs); [apply Hx|reflexivity].
+  Qed.
+End WalkExt.
+
+Definition erase_msg (r : rep) : string * nat * nat := match r with (rule, l, c, _) => (rule, l, c) end.
+Definition msg_off (q : rquirks) : rquirks :=
+  Build_rquirks (q_macro_opaque q) (q_test_attr_substring q) (q_cfg_test_literal q) (q_attr_stop_at_comment q) (q_chain_start_line q)
+                (q_for_header_in_loop q) (q_clone_first_pattern q) false (q_wrapper_method_form q) (q_net_bare_type q).
+
+Lemma emit_blocking_msg_erased q ls o anc k cs :
+  map erase_msg (emit_blocking q ls o anc k cs) = map erase_msg (emit_blocking (msg_off q) ls o anc k cs).
+Proof.
+  destruct k; try reflexivity. unfold emit_blocking.
+  change (inside_wrapper (msg_off q) anc) with (inside_wrapper q anc).
+  change (inside_test (msg_off q) anc) with (inside_test q anc).
+  change (blocking_classes_of (msg_off q)) with (blocking_classes_of q).
+  destruct (_ && in_async_context anc); [|reflexivity].
+  destruct (List.length path <? 2); [reflexivity|].
+  destruct (classify_path (blocking_classes_of q) path); [|reflexivity].
+  destruct (inside_wrapper q anc); [reflexivity|].
+  destruct (skipped _ _ _ _ _ _); reflexivity.
+Qed.
+
+(* positions and rule ids of blocking-async do not depend on the message quirk *)
+Theorem blocking_msg_erased q ls c file :
+  map erase_msg (blocking_report q ls c file) = map erase_msg (blocking_report (msg_off q) ls c file).
+Proof.
+  unfold blocking_report, walk_file. induction file as [|n ns IH]; [reflexivity|].
+  cbn [flat_map]. rewrite !map_app, IH. f_equal.
+  apply walk_map_ext.
+  - intros anc k i rest. reflexivity.
+  - intros anc k cs. apply emit_blocking_msg_erased.
 Qed.
 
 (* ------------------------------------------------------------------ switches *)
@@ -202,7 +261,7 @@ Section WalkFacts.
   Qed.
 End WalkFacts.
 
-Definition rule_of_rep (r : rep) : string := match r with (rule, _, _) => rule end.
+Definition rule_of_rep (r : rep) : string := match r with (rule, _, _, _) => rule end.
 Definition drop_rule (rule : string) (r : rep) : bool := negb (String.eqb (rule_of_rep r) rule).
 Definition set_opt (key : string) (v : bool) (o : options) : options := (key, v) :: o.
 Definition with_unwrap (c : config) (o : options) : config := {| c_unwrap := o; c_clone := c_clone c; c_blocking := c_blocking c |}.
@@ -210,9 +269,9 @@ Definition with_clone (c : config) (o : options) : config := {| c_unwrap := c_un
 Definition with_blocking (c : config) (o : options) : config := {| c_unwrap := c_unwrap c; c_clone := c_clone c; c_blocking := o |}.
 
 (* allow_expect removes exactly the expect-call reports *)
-Theorem switch_allow_expect c file :
-  spec_unwrap_report (with_unwrap c (set_opt "allow_expect" true (c_unwrap c))) file =
-  filter (drop_rule "unwrap-abuse.expect-call") (spec_unwrap_report (with_unwrap c (set_opt "allow_expect" false (c_unwrap c))) file).
+Theorem switch_allow_expect ls c file :
+  spec_unwrap_report ls (with_unwrap c (set_opt "allow_expect" true (c_unwrap c))) file =
+  filter (drop_rule "unwrap-abuse.expect-call") (spec_unwrap_report ls (with_unwrap c (set_opt "allow_expect" false (c_unwrap c))) file).
 Proof.
   unfold spec_unwrap_report. cbn [c_unwrap with_unwrap]. apply walk_file_filter. intros x k cs.
   destruct k; try reflexivity. unfold spec_unwrap, set_opt. cbn [opt String.eqb Ascii.eqb Bool.eqb andb negb].
@@ -222,9 +281,9 @@ Proof.
 Qed.
 
 (* a blocking class's detect_* option removes exactly that class's reports *)
-Theorem switch_blocking c file cl : cl = "fs-in-async" \/ cl = "sleep-in-async" \/ cl = "net-in-async" ->
-  spec_blocking_report (with_blocking c (set_opt (blocking_switch cl) false (c_blocking c))) file =
-  filter (drop_rule (blocking_rule cl)) (spec_blocking_report (with_blocking c (set_opt (blocking_switch cl) true (c_blocking c))) file).
+Theorem switch_blocking ls c file cl : cl = "fs-in-async" \/ cl = "sleep-in-async" \/ cl = "net-in-async" ->
+  spec_blocking_report ls (with_blocking c (set_opt (blocking_switch cl) false (c_blocking c))) file =
+  filter (drop_rule (blocking_rule cl)) (spec_blocking_report ls (with_blocking c (set_opt (blocking_switch cl) true (c_blocking c))) file).
 Proof.
   intros Hcl. unfold spec_blocking_report. cbn [c_blocking with_blocking]. apply walk_file_filter. intros x k cs.
   destruct k; try reflexivity. unfold spec_blocking.
@@ -243,8 +302,8 @@ Definition clone_switch_of_rule (rule : string) : string :=
   if String.eqb rule "clone-abuse.clone-chain" then "detect_clone_chain"
   else if String.eqb rule "clone-abuse.clone-in-loop" then "detect_clone_in_loop" else "detect_unnecessary_clone".
 
-Theorem switch_clone_off c file :
-  Forall (fun r => opt (c_clone c) (clone_switch_of_rule (rule_of_rep r)) true = true) (spec_clone_report c file).
+Theorem switch_clone_off ls c file :
+  Forall (fun r => opt (c_clone c) (clone_switch_of_rule (rule_of_rep r)) true = true) (spec_clone_report ls c file).
 Proof.
   unfold spec_clone_report. apply walk_file_forall. intros x k cs.
   destruct k; try constructor. unfold spec_clone.
@@ -261,22 +320,22 @@ Qed.
 
 (* allow_in_tests off: test context is irrelevant — nothing is exempt; allow_in_tests on and no
    test items: same reports as with it off *)
-Theorem no_unwrap_in_test_reported c file :
+Theorem no_unwrap_in_test_reported ls c file :
   opt (c_unwrap c) "allow_in_tests" true = true ->
   forall pre a name body, In (N (KFn pre a name) body) file -> fn_is_test pre = true ->
-  walk spec_push (spec_unwrap (c_unwrap c)) ctx0 (N (KFn pre a name) body) = [].
+  walk spec_push (spec_unwrap ls (c_unwrap c)) ctx0 (N (KFn pre a name) body) = [].
 Proof.
   intros HA pre a name body _ HT.
-  assert (K : forall n x, in_test x = true -> walk spec_push (spec_unwrap (c_unwrap c)) x n = []).
+  assert (K : forall n x, in_test x = true -> walk spec_push (spec_unwrap ls (c_unwrap c)) x n = []).
   { induction n as [k cs IH] using node_ind'. intros x Hx. rewrite walk_eq.
-    assert (E : spec_unwrap (c_unwrap c) x k cs = []).
+    assert (E : spec_unwrap ls (c_unwrap c) x k cs = []).
     { destruct k; try reflexivity. unfold spec_unwrap. now rewrite Hx, HA. }
     rewrite E. clear E. cbn [app]. generalize 0 as i. induction IH as [|y ys Hy _ IHys]; intros i; [reflexivity|].
-    cbn [walk_kids]. fold (walk_kids spec_push (spec_unwrap (c_unwrap c)) x k). rewrite IHys, app_nil_r.
+    cbn [walk_kids]. fold (walk_kids spec_push (spec_unwrap ls (c_unwrap c)) x k). rewrite IHys, app_nil_r.
     unfold spec_push. apply Hy. cbn [in_test]. now rewrite Hx. }
   rewrite walk_eq. cbn [spec_unwrap app].
   generalize 0 as i. induction body as [|y ys IH]; intros i; [reflexivity|].
-  cbn [walk_kids]. fold (walk_kids spec_push (spec_unwrap (c_unwrap c)) ctx0 (KFn pre a name)). rewrite IH, app_nil_r.
+  cbn [walk_kids]. fold (walk_kids spec_push (spec_unwrap ls (c_unwrap c)) ctx0 (KFn pre a name)). rewrite IH, app_nil_r.
   unfold spec_push. apply K. cbn [in_test ctx0 orb]. exact HT.
 Qed.
 
